@@ -125,7 +125,12 @@ def shape(rep, prog):
     is_sg = lambda x: len(x) >= 4 and x[0] == 'call' and x[1] == ('fn', 'switch_ground_node')
     okr = okl = True; n_sg = n_look = 0
     for first_is_reference, rel, ground, node in ((False, '==0', 'n2', 'n1'), (True, '!=0', 'n1', 'n2')):
-        e2 = new_ev(prog, facts=[(zn, rel)]); e2.opaque_fns = set(ev.opaque_fns)
+        if isinstance(zn, Opq) and zn.k and zn.k[0] == 'cmp' and zn.k[1] == 'Eq' and isinstance(zn.k[2], Poly):
+            # the reference test is unfolded to `n1 == zero`: state the hypothesis on that difference
+            e2 = new_ev(prog, facts=[(zn.k[2], '==0' if rel == '!=0' else '!=0')])
+        else:
+            e2 = new_ev(prog, facts=[(zn, rel)])
+        e2.opaque_fns = set(ev.opaque_fns)
         t2 = call(e2, f, [A('network'), A('n1'), A('n2')])
         k2 = tkey(t2)
         for c_ in _find(k2, is_sg):
